@@ -1330,6 +1330,12 @@ func (i *indexImpl) Close() error {
 	i.mutex.Lock()
 	defer i.mutex.Unlock()
 
+	if !i.open {
+		// a second Close must not reach the engine again (scorch would
+		// close its already closed closeCh and panic)
+		return ErrorIndexClosed
+	}
+
 	indexStats.UnRegister(i)
 
 	i.open = false
